@@ -22,6 +22,57 @@ CHECKS = {
         note=NOTE_COMMON + " SSE lane operations are assumed to be lane-wise as the ISA defines them.",
         technique="Lean 4 proof (induction over 16-byte blocks, decide +kernel over 256 byte values) + correspondence check + scalar oracle",
     ),
+    "C04": dict(
+        category="proof",
+        text=("Lean theorems (Edn.Properties.C04) prove for every input: the SWAR test accepts exactly the 8-byte blocks of ASCII digits "
+              "and the multiply-shift cascade returns their decimal value (all 10^8 blocks at once); parse_int64_from_buffer returns "
+              "`some n` exactly when the value of the digit string (any length, radix 2..36, either sign, underscores with the "
+              "experimental flag) lies in the signed 64-bit range and n is that value; ratio_gcd equals the mathematical gcd for all "
+              "int64 operands including INT64_MIN. Tied to the code by direct calls of the static helpers (2^63 neighbourhood for every "
+              "radix, 1..40 digits, 20k/1M random 8-digit blocks, every non-digit byte in every lane, gcd operands) and by whole literals "
+              "(decimal, N/M suffixes, radix/hex/octal, ratios, underscores) through reader and model, with Python big integers and "
+              "Fraction as the oracle."),
+        design_ref="DESIGN.md section 6, C04",
+        note=NOTE_COMMON + " The reader-level statement (which branch of edn_read_number produces which payload) is covered by the correspondence run, not yet by a theorem.",
+        technique="Lean 4 proof (lane-wise SWAR arithmetic, loop invariants, Stein gcd) + correspondence check + big-integer oracle",
+    ),
+    "C07": dict(
+        category="proof",
+        text=("Lean theorems (Edn.Properties.C07): on well-formed values (duplicate-free sets/maps, which the reader establishes) structural "
+              "equality Eqv is reflexive, symmetric and transitive; Eqv implies equal hashes; for every state of the cache cells in which "
+              "each non-empty cell holds that value's hash, the library's edn_value_equal (with its cached-hash short circuit and depth cap) "
+              "answers exactly Eqv for all values within the reader's nesting limit; edn_value_hash preserves cache validity. Proved by "
+              "induction on the recursion fuel for values of any size. Tied to the code by operation scripts (read/hash/equal/lookup/"
+              "string-get on values and sub-values, all histories of up to 3 (4 thorough) preceding calls on selected pairs, nesting to 99) "
+              "run through library and model; the oracle knows which generated values are equal and checks symmetry, transitivity over "
+              "triples, equal=>same hash and identical answers before/after every history on the real library."),
+        design_ref="DESIGN.md section 6, C07",
+        note=NOTE_COMMON + " Pointer identity (a == b) and user-supplied external-type callbacks are not modelled.",
+        technique="Lean 4 proof (induction on depth fuel, permutation matching for sets/maps) + correspondence check + algebraic oracle",
+    ),
+    "C08": dict(
+        category="proof",
+        text=("Lean theorems (Edn.Properties.C08): for every element count (hence each internal strategy and any threshold values) "
+              "edn_has_duplicates answers `no duplicates` iff the elements are pairwise non-equal, the verdict is invariant under "
+              "permutation, and the elements come back unchanged up to valid cache cells. Tied to the code by set and map literals of "
+              "2..1002 (1600 thorough) elements with a planted equal pair of every kind (scalars, escaped/raw strings, composites, "
+              "list/vector twins, +0.0/-0.0, NaN, ratios, text blocks) at first/last/adjacent/middle positions, near-miss pairs that must be "
+              "accepted, and permutations, through reader and model."),
+        design_ref="DESIGN.md section 6, C08",
+        note=NOTE_COMMON + " qsort is assumed to return a permutation; calloc/malloc failure fall-backs are not modelled.",
+        technique="Lean 4 proof (hash congruence + pairwise characterisation) + correspondence check + planted-duplicate oracle",
+    ),
+    "C09": dict(
+        category="proof",
+        text=("Lean theorems (Edn.Properties.C09): in a well-formed map, looking up any value equal to key i returns value i and a value equal "
+              "to no key returns not-found, for every valid cache state; set membership likewise; the temporary keys built by the keyword / "
+              "namespaced-keyword / string-key helpers are legal probes, so the helpers are instances of the general lookup. Tied to the "
+              "code by lookup scripts on maps and sets of 0..120 (1500 thorough) entries with keys of every kind, every index (sampled above 60), "
+              "absent probes differing in one leaf, helper lookups incl. escaped spellings, before and after hashing the container."),
+        design_ref="DESIGN.md section 6, C09",
+        note=NOTE_COMMON,
+        technique="Lean 4 proof (corollaries of the equality theorems) + correspondence check + iteration oracle",
+    ),
 }
 
 
